@@ -19,6 +19,12 @@
 (* Recheck = TRUE   the write transaction compares the count again and     *)
 (*                  refuses when the mailbox has filled up in between      *)
 (*                                                                         *)
+(* The UID limit is checked in the same two places.  A third party may    *)
+(* remove messages in between (Expunge: STORE \Deleted + EXPUNGE of one    *)
+(* message by another session, one write transaction): the count goes down *)
+(* again but the UID counter never does - "the mailbox did not grow since  *)
+(* my check" says nothing about UIDs.                                      *)
+(*                                                                         *)
 (* Every behaviour is finite (each session appends at most PerSession      *)
 (* times); the module prints each complete behaviour so that the harness   *)
 (* can force exactly that interleaving on the real server (the hook        *)
@@ -31,55 +37,72 @@ CONSTANTS Sessions,     \* e.g. {"s1", "s2"}
           Start,        \* messages in the mailbox at the beginning
           PerSession,   \* APPENDs per session
           Recheck,      \* see above
+          LimitUid,     \* configured UID limit: an insertion needs uidNext + 1 <= LimitUid (exclusive, as the code has it)
+          Expunges,     \* how many times the extra party removes one message (0: never)
           Record        \* TRUE: keep and print behaviours
 
 VARIABLES count,    \* messages in the mailbox
           pc,       \* [Sessions -> {"idle", "begun", "checked"}]
           done,     \* [Sessions -> Nat] finished APPENDs
+          uidNext,  \* the UID the next insertion gets
+          expd,     \* removals done so far
           last,     \* the last step [act, s, status]
           hist
 
-vars == <<count, pc, done, last, hist>>
+vars == <<count, pc, done, uidNext, expd, last, hist>>
 
 Init ==
   /\ count = Start
   /\ pc = [s \in Sessions |-> "idle"]
   /\ done = [s \in Sessions |-> 0]
-  /\ last = [act |-> "Init", s |-> "", status |-> "", count |-> Start]
+  /\ uidNext = Start + 1
+  /\ expd = 0
+  /\ last = [act |-> "Init", s |-> "", status |-> "", count |-> Start, uidnext |-> Start + 1]
   /\ hist = <<>>
 
-Log(a, s, st, c) == last' = [act |-> a, s |-> s, status |-> st, count |-> c]
+Log(a, s, st, c, u) == last' = [act |-> a, s |-> s, status |-> st, count |-> c, uidnext |-> u]
+Full == count + 1 > Max \/ uidNext + 1 > LimitUid
 
 Begin(s) ==
   /\ pc[s] = "idle" /\ done[s] < PerSession
   /\ pc' = [pc EXCEPT ![s] = "begun"]
-  /\ Log("Begin", s, "", count)
-  /\ UNCHANGED <<count, done>>
+  /\ Log("Begin", s, "", count, uidNext)
+  /\ UNCHANGED <<count, done, uidNext, expd>>
 
 \* the read transaction
 Check(s) ==
   /\ pc[s] = "begun"
-  /\ IF count + 1 > Max
+  /\ IF Full
      THEN /\ pc' = [pc EXCEPT ![s] = "idle"]
           /\ done' = [done EXCEPT ![s] = @ + 1]
-          /\ Log("Check", s, "NO", count)
+          /\ Log("Check", s, "NO", count, uidNext)
      ELSE /\ pc' = [pc EXCEPT ![s] = "checked"]
           /\ UNCHANGED done
-          /\ Log("Check", s, "pass", count)
-  /\ UNCHANGED count
+          /\ Log("Check", s, "pass", count, uidNext)
+  /\ UNCHANGED <<count, uidNext, expd>>
 
 \* the write transaction
 Commit(s) ==
   /\ pc[s] = "checked"
   /\ pc' = [pc EXCEPT ![s] = "idle"]
   /\ done' = [done EXCEPT ![s] = @ + 1]
-  /\ IF Recheck /\ count + 1 > Max
-     THEN /\ UNCHANGED count
-          /\ Log("Commit", s, "NO", count)
+  /\ IF Recheck /\ Full
+     THEN /\ UNCHANGED <<count, uidNext>>
+          /\ Log("Commit", s, "NO", count, uidNext)
      ELSE /\ count' = count + 1
-          /\ Log("Commit", s, "OK", count + 1)
+          /\ uidNext' = uidNext + 1
+          /\ Log("Commit", s, "OK", count + 1, uidNext + 1)
+  /\ UNCHANGED expd
 
-Step == \E s \in Sessions : Begin(s) \/ Check(s) \/ Commit(s)
+\* another session removes the first message of the mailbox: one write transaction
+Expunge ==
+  /\ expd < Expunges /\ count > 0
+  /\ count' = count - 1
+  /\ expd' = expd + 1
+  /\ Log("Expunge", "x", "OK", count - 1, uidNext)
+  /\ UNCHANGED <<pc, done, uidNext>>
+
+Step == (\E s \in Sessions : Begin(s) \/ Check(s) \/ Commit(s)) \/ Expunge
 Finished == \A s \in Sessions : pc[s] = "idle" /\ done[s] = PerSession
 
 Keep == IF Record THEN hist' = Append(hist, last') ELSE hist' = hist
@@ -90,9 +113,9 @@ EmitBehaviour == (Record /\ Finished) => PrintT(ToJson([trace |-> hist]))
 
 -----------------------------------------------------------------------------
 \* the property
-WithinLimit == count <= Max
+WithinLimit == count <= Max /\ uidNext <= LimitUid
 \* operations that fit are still accepted: an APPEND is only refused when the mailbox is full at that moment
-RefusedOnlyWhenFull == last.status = "NO" => last.count = Max
+RefusedOnlyWhenFull == last.status = "NO" => (last.count = Max \/ last.uidnext = LimitUid)
 \* every APPEND is answered
 AllAnswered == <>Finished
 =============================================================================
